@@ -287,6 +287,8 @@ pub fn check(prop: &str, tier: &str) -> i32 {
         .and_then(|s| s.parse().ok())
         .unwrap_or(1);
     let b = budget(prop, tier);
+    // case generation (in the forked workers) deepens the enumerations in the thorough tier
+    unsafe { std::env::set_var("RLSIM_TIER", if tier == "thorough" { "thorough" } else { "quick" }) };
     let started = std::time::Instant::now();
     let known = load_known();
     let mine: Vec<KnownFinding> = known
